@@ -157,11 +157,10 @@ for directed in (False, True):
                                  and v in (None, 1)) or (ids == (0, 2, 3) and strnodes and not directed and v is None and w == (None, None)) \
                             or (directed and ids == (0, 1) and not strnodes and v in (None, 1) and w in ((None, None), (1, 1))) \
                             or (directed and ids == (0, 1, 2) and N == 3 and not strnodes and v is None and w == (None, None) and part == 0)
-                        keep = quick or (not directed and N == 3 and v in (None, 1) and (not strnodes or ids == (0, 2, 3))
-                                         and (len(ids) < 4 or w == (None, None))) \
-                            or (not directed and N == 4 and not strnodes and w == (None, None) and v is None) \
-                            or (directed and ids == (0, 1, 2) and N == 3 and not strnodes and w == (None, None) and v is None) \
-                            or (directed and ids == (0, 1))
+                        keep = quick or (not directed and N == 3 and v is None and (not strnodes or ids == (0, 2, 3))
+                                         and w == (None, None)) \
+                            or (directed and ids == (0, 1, 2) and N == 3 and not strnodes and w == (None, None) and v is None and part in (0, 1)) \
+                            or (directed and ids == (0, 1) and not strnodes)
                         if not keep:
                             continue
                         REG.add("all_%s_%s_ids%s_N%d_v%s_w%s%s%s" % ("d" if directed else "u", "str" if strnodes else "int",
